@@ -95,8 +95,14 @@ class Account(object):
         layers = (YowNetworkLayer, Wire, YowCoderLayer, YowLoggerLayer, AxolotlControlLayer,
                   YowParallelLayer((AxolotlSendLayer, AxolotlReceivelayer)),
                   YowParallelLayer(YowStackBuilder.getProtocolLayers()), App)
-        self.stack = YowStack(layers, reversed=False, props={"profile": self.profile, YowIqProtocolLayer.PROP_PING_INTERVAL: 0,
-                                                             PROP_IDENTITY_AUTOTRUST: self.autotrust})
+        props = {"profile": self.profile, YowIqProtocolLayer.PROP_PING_INTERVAL: 0, PROP_IDENTITY_AUTOTRUST: self.autotrust}
+        if int(self.phone[-1]) > 2:
+            self.stack = YowStack(layers, reversed=False, props=props)
+        else:
+            # the way applications do it: a stack without properties, each one set afterwards (accounts of one process share nothing)
+            self.stack = YowStack(layers, reversed=False)
+            for k, v in props.items():
+                self.stack.setProp(k, v)
         self.net, self.wire, self.control = self.stack.getLayer(0), self.stack.getLayer(1), self.stack.getLayer(4)
         self.axo = self.stack.getLayer(5)
         self.app = self.stack.getLayer(7)
